@@ -8,6 +8,7 @@
 //!   openall      open every gate (used at the end)
 //! stdout: the linearised event log, one event per line:
 //!   start <x> | finish <x> | panicking <x> | ret <x> | ret none | dropping | joined | hang <what>
+//! (plan commands: finish x | panic x | next | drop | openall | pause <ms> | settle)
 use std::collections::HashMap;
 use std::io::BufRead;
 use std::sync::{Arc, Condvar, Mutex};
@@ -184,6 +185,11 @@ fn main() {
                 let mut g = m.lock().unwrap_or_else(|e| e.into_inner());
                 g.all_open = true;
                 c.notify_all();
+            }
+            Some("pause") => {
+                // the consumer is busy elsewhere for a while: every worker that has delivered sits idle meanwhile
+                let ms: u64 = p.next().unwrap().parse().unwrap();
+                std::thread::sleep(Duration::from_millis(ms));
             }
             Some("settle") => {
                 std::thread::sleep(Duration::from_millis(2));
